@@ -57,7 +57,9 @@ func e5Obligations(p *Prog, r *Report, rule string) {
 }
 
 func runC17(p *Prog, r *Report) {
-	fieldFrees(p, r, "C17.10/field-frees", func(rel string) bool { return strings.HasPrefix(rel, "protocol/") || strings.HasPrefix(rel, "transport") || rel == "internal/core" }, fieldFreeAllowed)
+	fieldFrees(p, r, "C17.10/field-frees", func(rel string) bool {
+		return strings.HasPrefix(rel, "protocol/") || strings.HasPrefix(rel, "transport") || rel == "internal/core"
+	}, fieldFreeAllowed)
 	r.Floor("C17.10/field-frees", "field_frees.C17.10/field-frees", 3)
 	r.Describe("C17.1/E5", "message ownership typestate: double release, use after release/hand-off, release on an error return of Send/SendMsg, MakeUnique result discarded, retained message handed off without Clone, released message returned")
 	e5Obligations(p, r, "C17.1/E5")
@@ -68,7 +70,9 @@ func runC17(p *Prog, r *Report) {
 	r.Describe("C17.6/unique-sites", "every function that writes through a possibly shared message makes it unique first (frozen table of the four sites)")
 	uniqueSites(p, r, "C17.6/unique-sites", nil)
 	r.Describe("C17.7/fresh-backing-per-message", "a Header/Body slice installed into the messages of a receive loop is never backed by memory that outlives the iteration")
-	freshBackingPerMessage(p, r, "C17.7/fresh-backing-per-message", func(rel string) bool { return strings.HasPrefix(rel, "protocol/") || strings.HasPrefix(rel, "transport") })
+	freshBackingPerMessage(p, r, "C17.7/fresh-backing-per-message", func(rel string) bool {
+		return strings.HasPrefix(rel, "protocol/") || strings.HasPrefix(rel, "transport")
+	})
 	r.Floor("C17.7/fresh-backing-per-message", "pool.in_loop_buffer_installs", 10)
 	r.Describe("C17.3/shared-queue", "a message received from a queue that is fed with Clone'd (shared) messages is made unique before it is returned to the application")
 	e5SharedQueues(p, r, "C17.3/shared-queue")
